@@ -40,6 +40,7 @@ def check(ctx):
   r5(ctx, cls)
   r6(ctx, cls)
   r7(ctx, cls)
+  pool_request_paths(ctx)
 
 
 def r1_r4(ctx, cls):
@@ -326,6 +327,35 @@ def r6(ctx, cls):
       ctx.ob('C07.R6', pq, 'a waiter is skipped only if its stack is already drained', ok, 'waiter dropped under facts %s' % fs,
              'dropping a live waiter loses its request')
   ctx.floor('C07.R6', 'drain paths', n, 1)
+
+
+def pool_request_paths(ctx):
+  """PoolSink.AsyncProcessRequest: a connection obtained from _Get() is either pushed (with the pool) and used for the request,
+  or released -- on every path, also when the caller meanwhile completed (its stack drained) while _Get() blocked in an open."""
+  prog = ctx.prog
+  f = prog.func('scales/pool/base.py', 'PoolSink.AsyncProcessRequest')
+  why = ('_Get() has already counted (and possibly opened) the connection; a path that returns without pushing (pool, connection) on the stack and '
+         'forwarding, and without releasing it, leaks capacity: with max_watermark 1 the pool is wedged for good')
+
+  def mr(call, armed):
+    return ['Exception'] if call_attr(call) in ('AsyncProcessRequest',) and U(call.func.value) != 'self' else []
+  n = 0
+  for ev, ex in enum_paths(ctx, f, mr):
+    gets = [i for i, e in enumerate(ev) if e.kind == 'call' and U(e.node.func) == 'self._Get' and not e.info]
+    if not gets:
+      continue
+    n += 1
+    var = None
+    for e in ev:
+      if e.kind == 'stmt' and isinstance(e.node, ast.Assign) and e.node.value is ev[gets[0]].node:
+        var = U(e.node.targets[0])
+    push = [e for e in ev if e.kind == 'call' and call_attr(e.node) == 'Push' and len(e.node.args) == 2 and U(e.node.args[0]) == 'self' and U(e.node.args[1]) == var]
+    fwd = [e for e in ev if e.kind == 'call' and call_attr(e.node) == 'AsyncProcessRequest' and U(e.node.func.value) == var]
+    rel = [e for e in ev if e.kind == 'call' and U(e.node.func) == 'self._Release' and [U(a) for a in e.node.args] == [var]]
+    ok = (len(push) == 1 and len(fwd) == 1) or len(rel) >= 1
+    ctx.ob('C07.R2', f, 'a connection obtained from _Get is used for the request (pushed with the pool) or released, on every path', ok,
+           'path after _Get(): pushes %d, forwards %d, releases %d, exit %s' % (len(push), len(fwd), len(rel), ex[0]), why)
+  ctx.floor('C07.R2', 'request paths of the pool that obtain a connection', n, 1)
 
 
 def r7(ctx, cls):
